@@ -275,189 +275,194 @@ func main() {
 		{"wrapInStruct", func(x interface{}) fpgo.MaybeDef[interface{}] { return fpgo.Maybe.Just(struct{ V interface{} }{x}) }},
 		{"nest", func(x interface{}) fpgo.MaybeDef[interface{}] { return fpgo.Maybe.Just(fpgo.Maybe.Just(x)) }},
 	}
-	for _, v := range vals {
-		absent := absentRef(v.v)
-		for _, ct := range ctors {
-			var m fpgo.MaybeDef[interface{}]
-			if p := lib.Catch(func() { m = ct.mk(v.v) }); p != "" {
-				bad("panic|construct", v, ct.name, "%s", p)
-				continue
-			}
-			k := ct.name + "|" + v.name
-			if !distinct[k] {
-				distinct[k] = true
-				if !absent {
-					nontrivial++
+	// the whole enumeration runs twice in one process: in the second pass every value is met again after
+	// every other value has gone through every constructor and observer (answers must not depend on
+	// what was evaluated earlier)
+	for pass := 1; pass <= 2; pass++ {
+		for _, v := range vals {
+			absent := absentRef(v.v)
+			for _, ct := range ctors {
+				var m fpgo.MaybeDef[interface{}]
+				if p := lib.Catch(func() { m = ct.mk(v.v) }); p != "" {
+					bad("panic|construct", v, ct.name, "%s", p)
+					continue
 				}
-			}
-			samples.Add(map[string]interface{}{"value": v.name, "constructor": ct.name, "absent_by_definition": absent})
-			ob := func(name string, f func()) bool {
-				evals++
-				if p := lib.Catch(f); p != "" {
-					bad("panic|"+name, v, ct.name, "%s panicked: %s", name, p)
-					return false
-				}
-				return true
-			}
-			ob("IsNil", func() {
-				if m.IsNil() != absent {
-					bad("absence|IsNil", v, ct.name, "IsNil()=%v, by definition absent=%v", m.IsNil(), absent)
-				}
-			})
-			ob("IsPresent", func() {
-				if m.IsPresent() != !m.IsNil() || m.IsPresent() == absent {
-					bad("absence|IsPresent", v, ct.name, "IsPresent()=%v IsNil()=%v absent=%v", m.IsPresent(), m.IsNil(), absent)
-				}
-			})
-			for _, fb := range fallbacks {
-				fb := fb
-				ob("Or", func() {
-					got := m.Or(fb)
-					want := v.v
-					if absent {
-						want = fb
+				k := ct.name + "|" + v.name
+				if !distinct[k] {
+					distinct[k] = true
+					if !absent {
+						nontrivial++
 					}
-					if ident(got) != ident(want) {
-						bad("absence|Or", v, ct.name, "Or(%v)=%s, want %s", fb, ident(got), ident(want))
+				}
+				samples.Add(map[string]interface{}{"value": v.name, "constructor": ct.name, "absent_by_definition": absent})
+				ob := func(name string, f func()) bool {
+					evals++
+					if p := lib.Catch(f); p != "" {
+						bad("panic|"+name, v, ct.name, "%s panicked: %s", name, p)
+						return false
+					}
+					return true
+				}
+				ob("IsNil", func() {
+					if m.IsNil() != absent {
+						bad("absence|IsNil", v, ct.name, "IsNil()=%v, by definition absent=%v", m.IsNil(), absent)
 					}
 				})
-			}
-			ob("Let", func() {
-				n := 0
-				m.Let(func() { n++ })
-				want := 1
-				if absent {
-					want = 0
-				}
-				if n != want {
-					bad("absence|Let", v, ct.name, "Let ran its callback %d times, want %d", n, want)
-				}
-			})
-			ob("UnwrapInterface", func() {
-				got := m.UnwrapInterface()
-				if absent && got != nil {
-					bad("absence|UnwrapInterface", v, ct.name, "UnwrapInterface()=%s for an absent value", ident(got))
-				}
-				if !absent && ident(got) != ident(v.v) {
-					bad("absence|UnwrapInterface", v, ct.name, "UnwrapInterface()=%s, want the value %s", ident(got), ident(v.v))
-				}
-			})
-			ob("Type", func() {
-				got := m.Type()
-				if absent && got != nil {
-					bad("absence|Type", v, ct.name, "Type()=%v for an absent value", got)
-				}
-				if !absent && got != reflect.TypeOf(v.v) {
-					bad("absence|Type", v, ct.name, "Type()=%v, want %v", got, reflect.TypeOf(v.v))
-				}
-			})
-			ob("ToString", func() {
-				got := m.ToString()
-				if absent && got != "<nil>" {
-					bad("absence|ToString", v, ct.name, "ToString()=%q for an absent value", got)
-				}
-			})
-			for _, c := range allConvs {
-				c := c
-				ob(c.name, func() {
-					val, err, ok := c.f(m)
-					if !ok {
-						return
-					}
-					if absent != (err == fpgo.ErrConversionNil) {
-						bad("absence|conversion", v, ct.name, "%s returned (%v, %v); ErrConversionNil exactly when absent (absent=%v)", c.name, val, err, absent)
-					}
-					if absent && !reflect.ValueOf(val).IsZero() {
-						bad("absence|conversion", v, ct.name, "%s returned non-zero %v for an absent value", c.name, val)
+				ob("IsPresent", func() {
+					if m.IsPresent() != !m.IsNil() || m.IsPresent() == absent {
+						bad("absence|IsPresent", v, ct.name, "IsPresent()=%v IsNil()=%v absent=%v", m.IsPresent(), m.IsNil(), absent)
 					}
 				})
-			}
-			ob("Kind/IsPtr/IsValid/IsKind/IsType", func() {
-				_ = m.Kind()
-				_ = m.IsPtr()
-				_ = m.IsValid()
-				_ = m.IsKind(reflect.Ptr)
-				_ = m.IsType(reflect.TypeOf(1))
-				_ = m.Unwrap()
-			})
-			ob("ToPtr", func() { _ = m.ToPtr() })
-			// FlatMap(f) is f applied to the wrapped value
-			for _, f := range fmFuncs {
-				f := f
-				ob("FlatMap", func() {
-					got := obsVector(m.FlatMap(f.f), true)
-					want := obsVector(f.f(m.Unwrap()), true)
-					if got != want {
-						bad("flatmap", v, ct.name, "FlatMap(%s) observes as %s, f(v) observes as %s", f.name, got, want)
-					}
-				})
-				// associativity: m.FlatMap(f).FlatMap(g) == m.FlatMap(x -> f(x).FlatMap(g))
-				for _, g := range fmFuncs {
-					g := g
-					ob("FlatMap-assoc", func() {
-						l := obsVector(m.FlatMap(f.f).FlatMap(g.f), false)
-						rr := obsVector(m.FlatMap(func(x interface{}) fpgo.MaybeDef[interface{}] { return f.f(x).FlatMap(g.f) }), false)
-						if l != rr {
-							bad("flatmap|assoc", v, ct.name, "(m>>=%s)>>=%s is %s but m>>=(x->%s x>>=%s) is %s", f.name, g.name, l, f.name, g.name, rr)
+				for _, fb := range fallbacks {
+					fb := fb
+					ob("Or", func() {
+						got := m.Or(fb)
+						want := v.v
+						if absent {
+							want = fb
+						}
+						if ident(got) != ident(want) {
+							bad("absence|Or", v, ct.name, "Or(%v)=%s, want %s", fb, ident(got), ident(want))
 						}
 					})
 				}
-			}
-			ob("FlatMap-right-identity", func() {
-				got := obsVector(m.FlatMap(func(x interface{}) fpgo.MaybeDef[interface{}] { return fpgo.Maybe.Just(x) }), true)
-				if want := obsVector(m, true); got != want {
-					bad("flatmap|right-identity", v, ct.name, "m.FlatMap(Just) is %s, m is %s", got, want)
+				ob("Let", func() {
+					n := 0
+					m.Let(func() { n++ })
+					want := 1
+					if absent {
+						want = 0
+					}
+					if n != want {
+						bad("absence|Let", v, ct.name, "Let ran its callback %d times, want %d", n, want)
+					}
+				})
+				ob("UnwrapInterface", func() {
+					got := m.UnwrapInterface()
+					if absent && got != nil {
+						bad("absence|UnwrapInterface", v, ct.name, "UnwrapInterface()=%s for an absent value", ident(got))
+					}
+					if !absent && ident(got) != ident(v.v) {
+						bad("absence|UnwrapInterface", v, ct.name, "UnwrapInterface()=%s, want the value %s", ident(got), ident(v.v))
+					}
+				})
+				ob("Type", func() {
+					got := m.Type()
+					if absent && got != nil {
+						bad("absence|Type", v, ct.name, "Type()=%v for an absent value", got)
+					}
+					if !absent && got != reflect.TypeOf(v.v) {
+						bad("absence|Type", v, ct.name, "Type()=%v, want %v", got, reflect.TypeOf(v.v))
+					}
+				})
+				ob("ToString", func() {
+					got := m.ToString()
+					if absent && got != "<nil>" {
+						bad("absence|ToString", v, ct.name, "ToString()=%q for an absent value", got)
+					}
+				})
+				for _, c := range allConvs {
+					c := c
+					ob(c.name, func() {
+						val, err, ok := c.f(m)
+						if !ok {
+							return
+						}
+						if absent != (err == fpgo.ErrConversionNil) {
+							bad("absence|conversion", v, ct.name, "%s returned (%v, %v); ErrConversionNil exactly when absent (absent=%v)", c.name, val, err, absent)
+						}
+						if absent && !reflect.ValueOf(val).IsZero() {
+							bad("absence|conversion", v, ct.name, "%s returned non-zero %v for an absent value", c.name, val)
+						}
+					})
 				}
-			})
-			// ToMaybe flattens exactly one level
-			ob("ToMaybe", func() {
-				got := obsVector(m.ToMaybe(), true)
-				var want string
-				if inner, ok := v.v.(fpgo.MaybeDef[interface{}]); ok && !absent {
-					want = obsVector(inner, true)
-				} else {
-					want = obsVector(m, true)
+				ob("Kind/IsPtr/IsValid/IsKind/IsType", func() {
+					_ = m.Kind()
+					_ = m.IsPtr()
+					_ = m.IsValid()
+					_ = m.IsKind(reflect.Ptr)
+					_ = m.IsType(reflect.TypeOf(1))
+					_ = m.Unwrap()
+				})
+				ob("ToPtr", func() { _ = m.ToPtr() })
+				// FlatMap(f) is f applied to the wrapped value
+				for _, f := range fmFuncs {
+					f := f
+					ob("FlatMap", func() {
+						got := obsVector(m.FlatMap(f.f), true)
+						want := obsVector(f.f(m.Unwrap()), true)
+						if got != want {
+							bad("flatmap", v, ct.name, "FlatMap(%s) observes as %s, f(v) observes as %s", f.name, got, want)
+						}
+					})
+					// associativity: m.FlatMap(f).FlatMap(g) == m.FlatMap(x -> f(x).FlatMap(g))
+					for _, g := range fmFuncs {
+						g := g
+						ob("FlatMap-assoc", func() {
+							l := obsVector(m.FlatMap(f.f).FlatMap(g.f), false)
+							rr := obsVector(m.FlatMap(func(x interface{}) fpgo.MaybeDef[interface{}] { return f.f(x).FlatMap(g.f) }), false)
+							if l != rr {
+								bad("flatmap|assoc", v, ct.name, "(m>>=%s)>>=%s is %s but m>>=(x->%s x>>=%s) is %s", f.name, g.name, l, f.name, g.name, rr)
+							}
+						})
+					}
 				}
-				if got != want {
-					bad("tomaybe", v, ct.name, "ToMaybe() observes as %s, one level of flattening gives %s", got, want)
-				}
-			})
-			// Clone: equal, pointer target a distinct copy
-			ob("Clone", func() {
-				c := m.Clone()
-				rv := reflect.ValueOf(v.v)
-				if !absent && rv.Kind() == reflect.Ptr {
-					cp := reflect.ValueOf(c.Unwrap())
-					if cp.Kind() != reflect.Ptr || cp.IsNil() {
-						bad("clone", v, ct.name, "Clone of a pointer gives %s", ident(c.Unwrap()))
+				ob("FlatMap-right-identity", func() {
+					got := obsVector(m.FlatMap(func(x interface{}) fpgo.MaybeDef[interface{}] { return fpgo.Maybe.Just(x) }), true)
+					if want := obsVector(m, true); got != want {
+						bad("flatmap|right-identity", v, ct.name, "m.FlatMap(Just) is %s, m is %s", got, want)
+					}
+				})
+				// ToMaybe flattens exactly one level
+				ob("ToMaybe", func() {
+					got := obsVector(m.ToMaybe(), true)
+					var want string
+					if inner, ok := v.v.(fpgo.MaybeDef[interface{}]); ok && !absent {
+						want = obsVector(inner, true)
+					} else {
+						want = obsVector(m, true)
+					}
+					if got != want {
+						bad("tomaybe", v, ct.name, "ToMaybe() observes as %s, one level of flattening gives %s", got, want)
+					}
+				})
+				// Clone: equal, pointer target a distinct copy
+				ob("Clone", func() {
+					c := m.Clone()
+					rv := reflect.ValueOf(v.v)
+					if !absent && rv.Kind() == reflect.Ptr {
+						cp := reflect.ValueOf(c.Unwrap())
+						if cp.Kind() != reflect.Ptr || cp.IsNil() {
+							bad("clone", v, ct.name, "Clone of a pointer gives %s", ident(c.Unwrap()))
+							return
+						}
+						if cp.Pointer() == rv.Pointer() {
+							bad("clone", v, ct.name, "Clone shares the pointer target with the original")
+						}
+						if !reflect.DeepEqual(cp.Elem().Interface(), rv.Elem().Interface()) {
+							bad("clone", v, ct.name, "Clone target %v differs from the original target %v", cp.Elem().Interface(), rv.Elem().Interface())
+						}
+						if c.IsNil() || !c.IsPresent() || c.Type() != m.Type() {
+							bad("clone", v, ct.name, "Clone is not an equal Maybe: nil=%v type=%v", c.IsNil(), c.Type())
+						}
+						if rv.Elem().Kind() == reflect.Int {
+							before := rv.Elem().Int()
+							cp.Elem().SetInt(before + 1000)
+							if rv.Elem().Int() != before {
+								bad("clone", v, ct.name, "writing through the clone changed the original")
+							}
+						}
 						return
 					}
-					if cp.Pointer() == rv.Pointer() {
-						bad("clone", v, ct.name, "Clone shares the pointer target with the original")
+					if got, want := obsVector(c, true), obsVector(m, true); got != want {
+						bad("clone", v, ct.name, "Clone observes as %s, original as %s", got, want)
 					}
-					if !reflect.DeepEqual(cp.Elem().Interface(), rv.Elem().Interface()) {
-						bad("clone", v, ct.name, "Clone target %v differs from the original target %v", cp.Elem().Interface(), rv.Elem().Interface())
-					}
-					if c.IsNil() || !c.IsPresent() || c.Type() != m.Type() {
-						bad("clone", v, ct.name, "Clone is not an equal Maybe: nil=%v type=%v", c.IsNil(), c.Type())
-					}
-					if rv.Elem().Kind() == reflect.Int {
-						before := rv.Elem().Int()
-						cp.Elem().SetInt(before + 1000)
-						if rv.Elem().Int() != before {
-							bad("clone", v, ct.name, "writing through the clone changed the original")
-						}
-					}
-					return
-				}
-				if got, want := obsVector(c, true), obsVector(m, true); got != want {
-					bad("clone", v, ct.name, "Clone observes as %s, original as %s", got, want)
-				}
-			})
+				})
+			}
 		}
+		// JustGenerics[T] at concrete T
+		evals += generics(r)
 	}
-	// JustGenerics[T] at concrete T
-	evals += generics(r)
 	r.Cov["states"] = len(distinct)
 	r.Cov["transitions"] = evals
 	r.Cov["traces_validated_against_impl"] = evals
